@@ -289,6 +289,21 @@ def estimator_lane(ctx, thorough):
                          dict(estimator=name, n_components=nc, d=d), observed=None if ex is None else str(ex)[:150])
 
 
+def knn_ambiguous(X, y, kg, ki):
+  """True when the k nearest same-class / other-class neighbours of some point are not determined (distance ties):
+  any choice among tied neighbours is a correct k-NN answer, so two runs may legitimately differ"""
+  X = np.asarray(X, dtype=float)
+  D = ((X[:, None, :] - X[None, :, :]) ** 2).sum(axis=2)
+  for i in range(len(X)):
+    same = np.flatnonzero((y == y[i]) & (np.arange(len(X)) != i))
+    other = np.flatnonzero((y != y[i]) & (y >= 0))
+    for idx, k in ((same, kg), (other, ki)):
+      ds = np.sort(D[i, idx])
+      if k < len(ds) and ds[k - 1] == ds[k]:
+        return True
+  return False
+
+
 def equivalence_lane(ctx, thorough):
   """fit on list / integer-typed / Fortran-ordered / strided copies of the same (integer-valued) numbers, formed or
   given as indicators of a preprocessor that holds them"""
@@ -303,6 +318,10 @@ def equivalence_lane(ctx, thorough):
         continue
       kw = fits.sdml_fix_balance(name, fits.base_kwargs(name, data), data)
       args = fits.fit_args(name, data)
+      if name == 'SCML_Supervised' and knn_ambiguous(data['X'], data['y'], kw['k_genuine'], kw['k_impostor']):
+        ctx.count('equivalent_arraylikes', 1, skipped=1)
+        ctx.hist('equivalence.skipped', 'SCML_Supervised: tied k-NN distances on the integer grid')
+        continue
       try:
         ref = fits.fit(name, kw, data).components_
       except Exception:
